@@ -164,6 +164,48 @@ def run_request(served, supported, contexts, probe, max_len=16384, called='SRV',
     return expected
 
 
+def run_many_classes(ctx):
+    """Entities that serve MORE than 128 SOP classes (the storage provider the library ships has 139; a request
+    can carry at most 128 contexts, an entity may serve any number): every class add_scp was called for is
+    accepted when proposed, wherever it sits in the list."""
+    from pynetdicom2 import sopclass
+    configs = {'storage_scp (139 classes) + verification': lambda: fd.make_ae('SRV', [TS[0], TS[1]]).add_scp(sopclass.storage_scp).add_scp(sopclass.verification_scp),
+               '200 synthetic classes in one service': None, 'verification first, then storage_scp': lambda: fd.make_ae('SRV', [TS[0], TS[1]]).add_scp(sopclass.verification_scp).add_scp(sopclass.storage_scp)}
+    for name, build in sorted(configs.items()):
+        if build is None:
+            many = ['1.2.826.0.1.3680043.9.4000.%d' % i for i in range(200)]
+
+            def svc_many(asce, c_, msg):
+                CALLS.append(('many', tuple(c_), type(msg).__name__))
+            svc_many.sop_classes = many
+            ae = fd.make_ae('SRV', [TS[0], TS[1]]).add_scp(svc_many)
+            served = many
+        else:
+            ae = build()
+            served = list(sopclass.storage_scp.sop_classes)
+        try:
+            for pos in (0, 1, 63, 126, 127, 128, 129, len(served) // 2, len(served) - 2, len(served) - 1):
+                uids = [served[pos], ABS['Z'], served[(pos + 1) % len(served)]]
+                case = {'many_classes': name, 'position': pos, 'proposed': uids}
+                spec = fd.rq_spec([(1 + 2 * k, u, [TS[2], TS[1]]) for k, u in enumerate(uids)])
+                acc, fac, exc = fd.run_acceptor(ae, [lambda dul, spec=spec: dul.push_pdu(spec)])
+                ctx.case(('many', name, pos), True, labels=['many-served-classes'], sample=case)
+                dul = fac.instances[0] if fac.instances else None
+                acs = dul.sent_pdus(2) if dul is not None else []
+                if len(acs) != 1 or acs[0]['spec'].get('t') != 2:
+                    ctx.fail('C09:many-classes:no-ac', '%s: no A-ASSOCIATE-AC for classes at positions %d.. (%r)' % (name, pos, exc), case)
+                    continue
+                res = [(i['id'], i['result'], i['ts']['name']) for i in acs[0]['spec']['items'] if i['t'] == 0x21]
+                want = [(1, True), (3, False), (5, True)]
+                for (cid, ok), got in zip(want, res):
+                    if got[0] != cid or (got[1] == 0) != ok or (ok and got[2] != TS[1]):
+                        ctx.fail('C09:many-classes:decision', '%s: class no. %d of %d served (%s) proposed with a supported '
+                                 'syntax: answers %r' % (name, pos + 1, len(served), uids[0], res), case)
+                        break
+        finally:
+            ae.server_close()
+
+
 def nontrivial(expected, contexts, supported):
     oks = [e[2] for e in expected]
     later = any(tl and TS[tl[0]] not in [TS[i] for i in supported] and e[2]
@@ -262,7 +304,7 @@ def run(ctx):
     warnings.simplefilter('ignore')
     ctx.rule = ('exhaustive: 8 served-class subsets (the entity optionally being a service USER of all other, or of all, classes; role-selection items for the proposed classes in half of the requests) x 16 supported-syntax subsets x all requests with <=1 (quick) / '
                 '<=2 (thorough) contexts over {3 served candidates, 1 never-served} x all 40 ordered lists of 1-3 '
-                'syntaxes from 4; Hypothesis: 0-8 contexts with arbitrary odd ids, generated AE titles, application '
+                'syntaxes from 4; entities serving 139 / 200 classes with classes from every part of the list proposed; Hypothesis: 0-8 contexts with arbitrary odd ids, generated AE titles, application '
                 'context, maximum length and extra user sub-items; each request is the decoded form of '
                 'reference-encoded bytes and goes through AssociationAcceptor.handle(); one message per accepted '
                 'context plus one on a non-accepted id probes routing; non-trivial = request with accepted and '
@@ -272,6 +314,7 @@ def run(ctx):
                        'wire observed through the reference parser (vf/refpdu.py)']
     try:
         parallel(ctx, run_enum, [{'part': i, 'of': 16, 'two': ctx.thorough} for i in range(16)])
+        run_many_classes(ctx)
         if ctx.thorough:
             parallel(ctx, shard_random, [{'n': 4000} for _ in range(16)])
         else:
@@ -282,6 +325,13 @@ def run(ctx):
 
 def replay(case):
     warnings.simplefilter('ignore')
+    if 'many_classes' in case:
+        from ..common import Ctx
+        sub = Ctx('C09', 'quick', 1)
+        run_many_classes(sub)
+        for key, ent in sorted(sub.failures.items()):
+            raise Violation(key, ent['what'], ent['case'])
+        return
     try:
         run_request(case['served'], case['supported'], [tuple(c) for c in case['contexts']], case['probe'],
                     case['max_len'], case['called'], case['calling'], case['app'], case.get('extra_subs', ()), case.get('scu_rest', False))
